@@ -141,12 +141,12 @@ def status_and_exception_move_together(ctx):
             exc_stores = [(s2, v2) for s2, v2 in exc_stores if q.guard_texts(s2) == q.guard_texts(st) or not q.guard_texts(s2)]
             # exception safety: nothing that can raise between the first and the last state store of the transition
             blk_stores = sorted([s2 for s2, t2, v2 in _stores(f.node) if t2.attr in STATE_ATTRS and _lock_region(s2) is region
-                                 and (q.guard_texts(s2) == q.guard_texts(st))], key=lambda n: n.lineno)
+                                 and (q.guard_texts(s2) == q.guard_texts(st))], key=lambda n: n._pos)
             if len(blk_stores) >= 2:
                 first, last = blk_stores[0], blk_stores[-1]
                 risky = []
                 for n2 in ast.walk(region):
-                    if isinstance(n2, ast.stmt) and first.lineno < n2.lineno <= last.lineno and n2 is not first:
+                    if isinstance(n2, ast.stmt) and first._pos < n2._pos <= last._pos and n2 is not first:
                         for c2 in ast.walk(n2):
                             if isinstance(c2, ast.Call) and not (dotted(c2.func) or '').startswith('logger.') and (dotted(c2.func) or '') != 'self.done':
                                 risky.append(c2)
